@@ -186,6 +186,53 @@ impl Prop for C14Prop {
         ]
     }
 
+    fn directed(&self, tier: Tier) -> Vec<Scenario> {
+        // a reset() / finalize() at every position of each of a set of characteristic frames,
+        // continued by each of those frames: whatever the first one left behind meets every kind
+        // of continuation
+        let mut frames: Vec<Vec<u8>> = vec![
+            vec![],
+            vec![0x11, 0x22, 0x33, 0x44],
+            vec![0x11, 0x22, 0x33],
+            vec![0x11, 0x22, 0x33, 0x1b],
+            vec![0x11, 0x22, 0x1b, 0x1b],
+            vec![0x11, 0x1b, 0x1b, 0x1b],
+            vec![0x11, 0x22, 0x33, 0x44, 0x00, 0x1b, 0x1b, 0x1b],
+            vec![0x11, 0x00, 0x00, 0x00],
+            vec![0x11, 0x22, 0x00, 0x00, 0x00, 0x00, 0x00],
+            vec![0x1b, 0x1b, 0x1b, 0x1b],
+            vec![0x11, 0x00, 0x1b, 0x1b, 0x1b, 0x1b, 0x22],
+            vec![0x1b, 0x1b, 0x1b, 0x1b, 0x01, 0x01, 0x01, 0x01],
+        ];
+        if tier == Tier::Thorough {
+            frames.push(vec![0x1b; 9]);
+            frames.push(vec![0x00; 9]);
+            frames.push(vec![0x11, 0x22, 0x33, 0x44, 0x55, 0x1b]);
+        }
+        let mut v = Vec::new();
+        for (i, a) in frames.iter().enumerate() {
+            let alen = refenc(a).len();
+            for pos in 1..=alen {
+                for op in [PushOp::Reset, PushOp::Finalize] {
+                    for (j, b) in frames.iter().enumerate() {
+                        let buf = if (i + j + pos) % 3 == 0 { BufKind::Vec } else { BufKind::Arr(16) };
+                        let mut l = LinkScn::new("C14", "directed-op-at-every-position", Fe::Push, buf);
+                        l.segs.push(Seg::Frame { payload: Hx(a.clone()), enc: crate::scn::Enc::Ref, faults: vec![] });
+                        l.segs.push(Seg::Frame { payload: Hx(b.clone()), enc: crate::scn::Enc::Ref, faults: vec![] });
+                        // the first frame is cut at `pos` by the call; its remaining bytes still follow
+                        l.ops.push((pos, op));
+                        if (i + j) % 2 == 0 {
+                            // ... or do not follow: the call comes at the very end of what was sent
+                            l.segs[0] = Seg::Cut { payload: Hx(a.clone()), cut: pos };
+                        }
+                        v.push(Scenario::Link(l));
+                    }
+                }
+            }
+        }
+        v
+    }
+
     fn gen(&self, rng: &mut Rng, tier: Tier) -> Scenario {
         let buf = match rng.below(4) {
             0 => BufKind::Vec,
